@@ -48,7 +48,19 @@ fn gettid() -> i64 {
     unsafe { libc::syscall(libc::SYS_gettid) as i64 }
 }
 
-/// Publish what is about to be executed (call event) so that a crash is attributable.
+// M-return (the "terminates" clause): time of each thread's last call event, in ms since start (0 = idle).
+// A watchdog thread reports a call that has not returned after HANG_MS as `NO-RETURN` with its breadcrumb.
+static HEART: [std::sync::atomic::AtomicU64; MAX_THREADS] = [const { std::sync::atomic::AtomicU64::new(0) }; MAX_THREADS];
+thread_local! {
+    static CRUMB_IDX: std::cell::Cell<usize> = const { std::cell::Cell::new(usize::MAX) };
+}
+#[cfg(not(miri))]
+fn now_ms() -> u64 {
+    static START: std::sync::OnceLock<std::time::Instant> = std::sync::OnceLock::new();
+    START.get_or_init(std::time::Instant::now).elapsed().as_millis() as u64 + 1
+}
+
+/// Publish what is about to be executed (call event) so that a crash or a hang is attributable.
 pub fn set_crumb(s: &[u8]) {
     CRUMB.with(|c| unsafe {
         let buf = &mut *c.get();
@@ -63,9 +75,39 @@ pub fn set_crumb(s: &[u8]) {
                 if idx < MAX_THREADS {
                     let t = std::ptr::addr_of_mut!(TID_TABLE) as *mut (i64, usize);
                     t.add(idx).write((gettid(), buf.as_mut_ptr() as usize));
+                    CRUMB_IDX.with(|i| i.set(idx));
                 }
             }
         });
+    });
+    #[cfg(not(miri))]
+    CRUMB_IDX.with(|i| {
+        if i.get() < MAX_THREADS {
+            HEART[i.get()].store(now_ms(), Ordering::Relaxed);
+        }
+    });
+}
+/// cheap call event for hot loops: a static tag and one number (no formatting)
+pub fn set_crumb_bits(tag: &'static str, bits: u64) {
+    let mut b = [0u8; 64];
+    let t = tag.as_bytes();
+    let n = t.len().min(40);
+    b[..n].copy_from_slice(&t[..n]);
+    b[n] = b' ';
+    b[n + 1] = b'0';
+    b[n + 2] = b'x';
+    for k in 0..16 {
+        let d = ((bits >> (60 - 4 * k)) & 15) as u8;
+        b[n + 3 + k] = if d < 10 { b'0' + d } else { b'a' + d - 10 };
+    }
+    set_crumb(&b[..n + 19]);
+}
+/// the calling thread is between calls into the library (generation, judging, waiting): not watched
+pub fn idle() {
+    CRUMB_IDX.with(|i| {
+        if i.get() < MAX_THREADS {
+            HEART[i.get()].store(0, Ordering::Relaxed);
+        }
     });
 }
 
@@ -146,6 +188,35 @@ mod imp {
             libc::sigaction(libc::SIGSEGV, &sa, std::ptr::null_mut());
             libc::sigaction(libc::SIGBUS, &sa, std::ptr::null_mut());
         }
+        // M-return watchdog: a call that has not returned HANG_MS after its call event
+        let limit: u64 = std::env::var("VERIF_HANG_MS").ok().and_then(|s| s.parse().ok()).unwrap_or(60_000);
+        std::thread::spawn(move || loop {
+            std::thread::sleep(std::time::Duration::from_millis(500));
+            let now = now_ms();
+            let nt = N_THREADS.load(Ordering::SeqCst).min(MAX_THREADS);
+            for i in 0..nt {
+                let t = HEART[i].load(Ordering::Relaxed);
+                if t != 0 && now > t + limit {
+                    unsafe {
+                        wr(b"\nNO-RETURN after ms=0x");
+                        wr_hex((now - t) as usize);
+                        wr(b" case=");
+                        let tab = std::ptr::addr_of!(TID_TABLE) as *const (i64, usize);
+                        let (_, p) = tab.add(i).read();
+                        if p != 0 {
+                            let p = p as *const u8;
+                            let mut len = 0;
+                            while len < CRUMB_LEN && *p.add(len) != 0 {
+                                len += 1;
+                            }
+                            wr(std::slice::from_raw_parts(p, len));
+                        }
+                        wr(b"\n");
+                        libc::_exit(76);
+                    }
+                }
+            }
+        });
     }
 
     pub struct Arena {
